@@ -540,6 +540,138 @@ theorem blocks_shape (file : String) (zmax : Nat) (text : List Char) (bs : List 
   have := loadBlocks_shape file zmax text [] bs h (by intro b hb; simp at hb)
   simpa using this
 
+/-! ## 8b. the positional files: kissel_pe.dat (`Electron_Config_Kissel`) and comptonprofiles.dat (`UOCCUP_ComptonProfiles`)
+
+No names here: block number = atomic number, place in the record = sub-shell.  `KisselStart f K j text pos` / `ComptonStart …`
+(LoaderProps/BlocksLemmas.lean) say that `pos` is the stream position after `j` complete blocks; `nthLf s p` is the `s`-th `%lf`
+token from position `p` on. -/
+
+/-- the table `Electron_Config_Kissel` among what the kissel_pe.dat step delivers (Loader/Files.lean `kisselOuts`) -/
+def kisselConfigOf (N : NameTables) (bs : List KisselBlock) : Option Tbl :=
+  (kisselOuts N bs).findSome? fun o => match o with
+    | .F name _ t => if name = "Electron_Config_Kissel" then some t else none
+    | _ => none
+
+/-- the vectors `UOCCUP_ComptonProfiles[Z]` among what the comptonprofiles.dat step delivers (`comptonOuts`) -/
+def comptonUoccupOf (N : NameTables) (bs : List ComptonBlock) : Option (Array (Option (Array Dec))) :=
+  (comptonOuts N bs).findSome? fun o => match o with
+    | .V name _ v => if name = "UOCCUP_ComptonProfiles" then some v else none
+    | _ => none
+
+/-- **cell ← block.**  Cell (Z, s) of `Electron_Config_Kissel` is the `s`-th entry of the CONFIGURATION record of block Z (the
+Z-th block of the file), and `ArrayInit`'s OUTD when the file has fewer than Z blocks -/
+theorem kissel_config_cell (N : NameTables) (bs : List KisselBlock) (t : Tbl) (ht : kisselConfigOf N bs = some t)
+    {Z : Nat} (hZ1 : 1 ≤ Z) (hZ : Z ≤ N.zmax) {s : Nat} (hs : s < N.shellnumK) :
+    t.get Z s = match bs[Z - 1]? with
+      | some b => (b.config[s]?).getD (Dec.ofInt OUTD)
+      | none => Dec.ofInt OUTD := by
+  unfold kisselConfigOf kisselOuts at ht
+  simp only [List.findSome?, if_true, Option.some.injEq] at ht
+  subst ht
+  have hlt := flat_lt hs (Nat.lt_succ_of_le hZ)
+  obtain ⟨hd, hm⟩ := flat_div_mod (Z := Z) hs
+  have hK0 : ¬ N.shellnumK = 0 := by omega
+  have hge : ¬ (Z * N.shellnumK + s < N.shellnumK) := by
+    have : N.shellnumK ≤ Z * N.shellnumK := Nat.le_mul_of_pos_left _ (by omega)
+    omega
+  simp [Tbl.get, Array.getD_eq_getD_getElem?, hlt, hd, hm, hK0, hge]
+  cases bs[Z - 1]? <;> rfl
+
+/-- **kissel_config_spec.**  If the loader returns from kissel_pe.dat, then for every element Z = 1..ZMAX that has a block and
+every sub-shell `s < SHELLNUM_K`: cell (Z, s) of `Electron_Config_Kissel` is the value of the `s`-th `%lf` token after the total
+cross-section rows of the Z-th block of the file (the CONFIGURATION record as tools/regen_kissel.py writes it: SHELLNUM_K
+occupation numbers, in the shell order of the public macros); an element without block keeps `ArrayInit`'s OUTD. -/
+theorem kissel_config_spec (N : NameTables) (text : List Char) (bs : List KisselBlock)
+    (h : loadKissel "kissel_pe.dat" N.shellnumK N.zmax text [] = .ok bs) (t : Tbl) (ht : kisselConfigOf N bs = some t)
+    {Z : Nat} (hZ1 : 1 ≤ Z) (hZ : Z ≤ N.zmax) {s : Nat} (hs : s < N.shellnumK) :
+    (Z ≤ bs.length → ∃ pos n s1 rows s2, KisselStart "kissel_pe.dat" N.shellnumK (Z - 1) text pos ∧ scanIntI pos = .ok n s1 ∧
+        readRows "kissel_pe.dat" n.toNat s1 [] = .ok (rows, s2) ∧ nthLf s s2 = some (t.get Z s)) ∧
+    (bs.length < Z → t.get Z s = Dec.ofInt OUTD) := by
+  obtain ⟨new, hnew, hb⟩ := loadKissel_blocks _ _ _ _ _ _ h
+  simp only [List.reverse_nil, List.nil_append] at hnew
+  subst hnew
+  have hc := kissel_config_cell N bs t ht hZ1 hZ hs
+  constructor
+  · intro hle
+    have hj : Z - 1 < bs.length := by omega
+    obtain ⟨pos, s1, s2, s3, hst, h1, h2, h3⟩ := hb.get (Z - 1) hj
+    refine ⟨pos, _, s1, _, s2, hst, h1, h2, ?_⟩
+    have hlen := h3.length
+    have hget := h3.get s hs
+    have hs' : s < bs[Z - 1].config.length := by omega
+    simp only [hc, List.getElem?_eq_getElem hj]
+    rw [← hget, List.getElem?_eq_getElem hs']
+    rfl
+  · intro hlt
+    rw [hc, List.getElem?_eq_none (by omega)]
+
+/-- the same for the tables of the working tree -/
+theorem kissel_spec (text : List Char) (bs : List KisselBlock)
+    (h : loadKissel "kissel_pe.dat" SHELLNUM_K ZMAX text [] = .ok bs) (t : Tbl) (ht : kisselConfigOf names bs = some t)
+    {Z : Nat} (hZ1 : 1 ≤ Z) (hZ : Z ≤ ZMAX) {s : Nat} (hs : s < SHELLNUM_K) :
+    (Z ≤ bs.length → ∃ pos n s1 rows s2, KisselStart "kissel_pe.dat" SHELLNUM_K (Z - 1) text pos ∧ scanIntI pos = .ok n s1 ∧
+        readRows "kissel_pe.dat" n.toNat s1 [] = .ok (rows, s2) ∧ nthLf s s2 = some (t.get Z s)) ∧
+    (bs.length < Z → t.get Z s = Dec.ofInt OUTD) :=
+  kissel_config_spec names text bs h t ht hZ1 hZ hs
+
+/-- the shipped kissel_pe.dat is EMPTY: no block is read and every cell keeps OUTD (`ElectronConfig` then always fails) -/
+theorem kissel_empty_file (N : NameTables) (t : Tbl) (hz : 0 < N.zmax)
+    (ht : kisselConfigOf N [] = some t) {Z : Nat} (hZ1 : 1 ≤ Z) (hZ : Z ≤ N.zmax) {s : Nat} (hs : s < N.shellnumK) :
+    loadKissel "kissel_pe.dat" N.shellnumK N.zmax [] [] = .ok [] ∧ t.get Z s = Dec.ofInt OUTD := by
+  constructor
+  · obtain ⟨m, hm⟩ : ∃ m, N.zmax = m + 1 := ⟨N.zmax - 1, by omega⟩
+    rw [hm]
+    rfl
+  · rw [kissel_config_cell N [] t ht hZ1 hZ hs]
+    simp
+
+/-- **vector ← block.**  `UOCCUP_ComptonProfiles[Z]` is the occupancy record of block Z; NULL when the file has fewer blocks -/
+theorem compton_uoccup_cell (N : NameTables) (bs : List ComptonBlock) (v : Array (Option (Array Dec)))
+    (hv : comptonUoccupOf N bs = some v) {Z : Nat} (hZ1 : 1 ≤ Z) (hZ : Z ≤ N.zmax) :
+    v[Z]? = some ((bs[Z - 1]?).map fun b => b.uoccup.toArray) := by
+  unfold comptonUoccupOf comptonOuts at hv
+  simp only [List.findSome?, if_true, Option.some.injEq] at hv
+  subst hv
+  have hZ0 : ¬ Z = 0 := by omega
+  have hlt : Z < N.zmax + 1 := by omega
+  simp [hlt, hZ0]
+
+/-- **compton_uoccup_spec.**  If the loader returns from comptonprofiles.dat, then for every element Z = 1..ZMAX that has a
+block: `NShells_ComptonProfiles[Z]` is the first `%d` token of the Z-th block, and `UOCCUP_ComptonProfiles[Z][s]`
+(`s < NShells`) is the value of the `s`-th `%lf` token after the block's two counts — the occupancy record -/
+theorem compton_uoccup_spec (N : NameTables) (text : List Char) (bs : List ComptonBlock)
+    (h : loadCompton "comptonprofiles.dat" N.shellnumC N.zmax text [] = .ok bs) (v : Array (Option (Array Dec)))
+    (hv : comptonUoccupOf N bs = some v) {Z : Nat} (hZ1 : 1 ≤ Z) (hZ : Z ≤ N.zmax) :
+    (Z ≤ bs.length → ∃ pos ns s1 np s2, ∃ occ : Array Dec, ComptonStart "comptonprofiles.dat" N.shellnumC (Z - 1) text pos ∧
+        scanInt pos = .ok ns s1 ∧ scanInt s1 = .ok np s2 ∧ v[Z]? = some (some occ) ∧ occ.size = ns.toNat ∧
+        ∀ s, s < ns.toNat → occ[s]? = nthLf s s2) ∧
+    (bs.length < Z → v[Z]? = some none) := by
+  obtain ⟨new, hnew, hb⟩ := loadCompton_blocks _ _ _ _ _ _ h
+  simp only [List.reverse_nil, List.nil_append] at hnew
+  subst hnew
+  have hc := compton_uoccup_cell N bs v hv hZ1 hZ
+  constructor
+  · intro hle
+    have hj : Z - 1 < bs.length := by omega
+    obtain ⟨pos, s1, s2, s3, hst, h1, h2, h3⟩ := hb.get (Z - 1) hj
+    refine ⟨pos, _, s1, _, s2, bs[Z - 1].uoccup.toArray, hst, h1, h2, ?_, ?_, ?_⟩
+    · rw [hc, List.getElem?_eq_getElem hj]; rfl
+    · simpa using h3.length
+    · intro s hs
+      have := h3.get s hs
+      simpa using this
+  · intro hlt
+    rw [hc, List.getElem?_eq_none (by omega)]; rfl
+
+theorem compton_spec (text : List Char) (bs : List ComptonBlock)
+    (h : loadCompton "comptonprofiles.dat" SHELLNUM_C ZMAX text [] = .ok bs) (v : Array (Option (Array Dec)))
+    (hv : comptonUoccupOf names bs = some v) {Z : Nat} (hZ1 : 1 ≤ Z) (hZ : Z ≤ ZMAX) :
+    (Z ≤ bs.length → ∃ pos ns s1 np s2, ∃ occ : Array Dec, ComptonStart "comptonprofiles.dat" SHELLNUM_C (Z - 1) text pos ∧
+        scanInt pos = .ok ns s1 ∧ scanInt s1 = .ok np s2 ∧ v[Z]? = some (some occ) ∧ occ.size = ns.toNat ∧
+        ∀ s, s < ns.toNat → occ[s]? = nthLf s s2) ∧
+    (bs.length < Z → v[Z]? = some none) :=
+  compton_uoccup_spec names text bs h v hv hZ1 hZ
+
 /-! ## 9. non-vacuity: every hypothesis above is satisfiable, on concrete non-trivial inputs -/
 
 section Examples
@@ -597,6 +729,24 @@ example : (match loadFile3 (cfgEdges names) "1  K       13.6\n2  K       24.6\n3
 /-- a short block aborts, a complete file does not -/
 example : (match loadBlocks "f" 120 "2 1 2 3 4 5".toList [] with | .error (.abort _) => true | _ => false) = true := by decide
 example : (match loadBlocks "f" 120 "2 1 2 3 4 5 6 0 1 7 8 9".toList [] with | .ok bs => bs.length == 3 | _ => false) = true := by decide
+
+
+/-- the positional files: a two-block kissel_pe.dat with `SHELLNUM_K = 2` (block 1: one row, occupancies 2 and 1.5, no sub-shell
+tables; block 2: no rows, occupancies 2 and 6) — cell (2, 1) is the second token of the second block's record; element 3 has no block -/
+def nT : NameTables := { zmax := 3, shell := [], line := [], trans := [], auger := [], augerTotal := [], shellnumK := 2, shellnumC := 2 }
+example : (match loadKissel "kissel_pe.dat" 2 3 "1\n 0.5 1.5 0.25\n 2.000000\n1.500000\n0\n0\n0\n2.000000 6.000000\n0 0\n".toList [] with
+    | .ok bs => (match kisselConfigOf nT bs with
+      | some t => bs.length == 2 && t.get 1 0 == ⟨2000000, -6⟩ && t.get 1 1 == ⟨1500000, -6⟩ && t.get 2 1 == ⟨6000000, -6⟩ &&
+                  t.get 3 0 == Dec.ofInt OUTD
+      | none => false)
+    | .error _ => false) = true := by decide +kernel
+example : nthLf 1 " 2.000000 6.000000\n0 0\n".toList = some ⟨6000000, -6⟩ := by decide +kernel
+/-- comptonprofiles.dat: one block, 2 sub-shells with occupancies 2 and 0 (the second has no partial profile), 1 momentum -/
+example : (match loadCompton "comptonprofiles.dat" 2 3 "2 1\n 2 0\n 0.0\n 1.5\n 0.1\n 1.25\n 0.2\n".toList [] with
+    | .ok bs => (match comptonUoccupOf nT bs with
+      | some v => bs.length == 1 && v[1]? == some (some #[⟨2, 0⟩, ⟨0, 0⟩]) && v[2]? == some none
+      | none => false)
+    | .error _ => false) = true := by decide +kernel
 
 end Examples
 
